@@ -352,6 +352,24 @@ func genC08(r *rand.Rand, run int, _ string) *Scenario {
 		be.Clients = append(be.Clients, ops)
 	}
 
+	// an observer that looks at every key after everybody else is done (an update lost by a race that no
+	// client happened to read back still shows), in half of the runs
+	if chance(r, 0.5) {
+		late := 2 * ms
+		if iv := be.Cfg.JanitorIntervalNs; iv > 0 {
+			late = 5 * iv // the other clients sleep up to two intervals
+		}
+
+		ops := []BEOp{{Kind: "sleep", SleepNs: late}}
+
+		for k := range be.Keys {
+			ops = append(ops, BEOp{Kind: "read", Key: k})
+		}
+
+		ops = append(ops, BEOp{Kind: "walk"}, BEOp{Kind: "len"})
+		be.Clients = append(be.Clients, ops)
+	}
+
 	sc.Sched = genSched(r, 30+nc*25)
 
 	return sc
